@@ -674,6 +674,21 @@ Proof.
     intros _ dd' Hw'. rewrite Hw in Hw'. inversion Hw'; subst. exact B.
 Qed.
 
+(* rmdir(2): an empty directory loses its entry *)
+Lemma sys_rmdir_step :
+  let f' := fst (sys_rmdir c f p) in
+  step T b f f' /\ (rerr (snd (sys_rmdir c f p)) = false -> forall dd, rwalk f D pre = Some dd -> blookup n (ents f' dd) = None).
+Proof.
+  unfold sys_rmdir. destruct resolve_nofollow as [[e He]|(dd & Hw & Hd & Hr)].
+  - rewrite He. simpl. split; [apply step_refl; auto|discriminate].
+  - rewrite Hr. cbn [l_ino l_dir l_name]. destruct (blookup n (ents f dd)) as [i|]; [|simpl; split; [apply step_refl; auto|discriminate]].
+    destruct (dir_of f i) as [[pp es]|]; [|simpl; split; [apply step_refl; auto|discriminate]].
+    destruct (is_nil n); [simpl; split; [apply step_refl; auto|discriminate]|].
+    destruct (is_nil es); [|simpl; split; [apply step_refl; auto|discriminate]].
+    cbn [fst snd]. destruct (step_del_ent T b f pre n dd W Hb Hw Hd (HT dd Hw Hd)) as [S B]. split; auto.
+    intros _ dd' Hw'. rewrite Hw in Hw'. inversion Hw'; subst. exact B.
+Qed.
+
 (* ---- open without O_CREAT: nothing changes; the descriptor is the file the name leads to ---- *)
 Lemma sys_open_nocreat_fs mode : fst (sys_open_wronly c f p false mode) = f.
 Proof.
@@ -704,6 +719,17 @@ Proof.
   destruct k; try (apply step_refl; auto).
   destruct data as [|d0 dr]; [apply step_refl; auto|].
   cbn [fst]. apply (step_put_keep D T b f i {| i_kind := KFile data0; i_meta := m |}); auto.
+  intros p es H. discriminate.
+Qed.
+
+(* O_TRUNC on a file the running operation made *)
+Lemma fd_truncate_step (T : N -> bytes -> Prop) b f i :
+  wf f -> b <= f_next f -> i < f_next f -> i <> D -> b <= i -> step T b f (fd_truncate f i).
+Proof.
+  intros W Hb Hr HD Hbi. unfold fd_truncate.
+  destruct (get f i) as [[k m]|] eqn:Eg; [|apply step_refl; auto].
+  destruct k; try (apply step_refl; auto).
+  apply (step_put_keep D T b f i {| i_kind := KFile data; i_meta := m |}); auto.
   intros p es H. discriminate.
 Qed.
 
